@@ -161,6 +161,45 @@ def c09_a(ctx: Ctx):
                 out.append(ctx.inc(R, fi2, fi2.node, f"default of '{fl}' is not a constant", construct=WSREAD + "|default:" + fl))
             else:
                 out.append(ctx.viol(R, fi2, fi2.node, f"validation flag '{fl}' defaults to {v!r}: reads are unvalidated unless asked", construct=WSREAD + "|default:" + fl))
+    # 2b. parse / decode / I-O errors of the workspace reader are reported as JobsCorruptedError (check() names the job)
+    ex = ExcFacts(ctx)
+    pm2 = ctx.parents(fi2)
+    jl = [c for c in body_nodes(fi2) if isinstance(c, ast.Call) and common.ext_name(ctx, fi2, c) in ("json.loads", "json.load")]
+    for c in jl:
+        cur = pm2.get(id(c))
+        tr = None
+        while cur is not None:
+            if isinstance(cur, ast.Try) and common.in_body_of(ctx, fi2, c, cur, ("body",)):
+                tr = cur
+                break
+            cur = pm2.get(id(cur))
+        k = WSREAD + "|error-mapping"
+        if tr is None:
+            out.append(ctx.viol(R, fi2, c, "reading the state point file is not protected: a damaged file surfaces as a raw decoding error and check() aborts without naming the job", construct=k))
+            continue
+        types = [t for h in tr.handlers for t in ex.handler_type_names(fi2, h)]
+        missing = [e for e in ("OSError", "json.JSONDecodeError", "UnicodeDecodeError") if not ex.catches(types, e)]
+        if missing:
+            out.append(ctx.viol(R, fi2, tr, f"the handler around the state point read catches {types} but not {missing}: single-byte damage that breaks the text encoding (or the JSON syntax) "
+                                "escapes as a raw error instead of JobsCorruptedError, check() aborts and names no job", construct=k))
+        else:
+            hs = [h for h in tr.handlers if ex.catches(ex.handler_type_names(fi2, h), "UnicodeDecodeError")]
+            raises = [x for st in hs[0].body for x in walk_no_nested(st) if isinstance(x, ast.Raise)]
+            if any((dotted(x.exc.func if isinstance(x.exc, ast.Call) else x.exc) or "").endswith("JobsCorruptedError") for x in raises if x.exc is not None):
+                out.append(ctx.ok(R, fi2, tr, "I/O, JSON and decoding errors of the state point read are mapped to JobsCorruptedError / KeyError", construct=k))
+            else:
+                out.append(ctx.viol(R, fi2, hs[0], "the handler never raises JobsCorruptedError", construct=k))
+    # 2c. registration overwrites: a validated state point replaces whatever an unvalidated look-up left in the cache
+    reg = ctx.fn("signac.project:Project._register")
+    st = [n for n in body_nodes(reg) if isinstance(n, ast.Assign) and any(isinstance(t, ast.Subscript) and canon(t.value) == "self._sp_cache" for t in n.targets)]
+    sd = [n for n in body_nodes(reg) if isinstance(n, ast.Call) and isinstance(n.func, ast.Attribute) and n.func.attr == "setdefault"]
+    if st and not sd:
+        out.append(ctx.ok(R, reg, st[0], "_register stores unconditionally: a validated state point replaces an entry left by an unvalidated read"))
+    elif sd:
+        out.append(ctx.viol(R, reg, sd[0], "_register keeps an existing cache entry (setdefault): an entry stored by repair()'s unvalidated look-up survives the later validated registration, "
+                            "is written to the persistent cache and is handed out for that id in the next session"))
+    else:
+        out.append(ctx.inc(R, reg, reg.node, "_register shape not recognised"))
     # 3. who calls _load_from_resource on a state point
     n_callers = 0
     for f in ctx.prog.functions_of_module("signac.job") + ctx.prog.functions_of_module("signac.project"):
